@@ -415,6 +415,23 @@ where
             let root = &commitment.root;
             let t = calculate_t::<F>(vk.sec_param(), vk.distance(), n_ext_cols)?;
 
+            // The opened combination vectors must have the length of a matrix row, and exactly `t`
+            // columns (each with one entry per row) and paths must be supplied. Otherwise a longer
+            // vector, whose encoding is only compared at positions below `n_ext_cols`, could be
+            // fitted to the committed columns while its prefix evaluates to an arbitrary value.
+            if proof.opening.v.len() != n_cols
+                || proof.opening.columns.len() != t
+                || proof.opening.paths.len() != t
+                || proof.opening.columns.iter().any(|c| c.len() != n_rows)
+            {
+                return Err(Error::InvalidCommitment);
+            }
+            if let Some(well_formedness) = &proof.well_formedness {
+                if well_formedness.len() != n_cols {
+                    return Err(Error::InvalidCommitment);
+                }
+            }
+
             sponge.absorb(&to_bytes!(&commitment.root).map_err(|_| Error::TranscriptError)?);
 
             let out = if vk.check_well_formedness() {
